@@ -21,6 +21,8 @@ def enc(v):
         return "(sym %s)" % json.dumps(v.n, ensure_ascii=False)
     if isinstance(v, Chr):
         return "(chr %d)" % ord(v.c)
+    if isinstance(v, MVec):
+        return "(mvec" + "".join(" " + enc(x) for x in v.items) + ")"
     if isinstance(v, Vec):
         return "(vec" + "".join(" " + enc(x) for x in v.items) + ")"
     if isinstance(v, tuple):
@@ -50,6 +52,8 @@ def lit(v):
         return "#\\" + v.c
     if isinstance(v, tuple):
         return "(list" + "".join(" " + lit(x) for x in v) + ")"
+    if isinstance(v, MVec):
+        return "(vector" + "".join(" " + lit(x) for x in v.items) + ")"
     if isinstance(v, Vec):
         return "(vector-immutable" + "".join(" " + lit(x) for x in v.items) + ")"
     if isinstance(v, frozenset):
@@ -94,6 +98,16 @@ class Vec:
 
     def __hash__(self):
         return hash(("vec", self.items))
+
+
+class MVec(Vec):
+    """contents of a mutable vector (a state of the model; the engine object is rebuilt from it)"""
+
+    def __eq__(self, o):
+        return isinstance(o, MVec) and o.items == self.items
+
+    def __hash__(self):
+        return hash(("mvec", self.items))
 
 
 class HM:
@@ -162,6 +176,43 @@ def vec_ops(s):
     for i in (-1, 0, n - 1, n, n + 1):
         O.append(("(vector-ref {s} %d)" % i, (lambda i=i: v[idx(i, n)])))
     return T, O
+
+SRC = (10, 20, 30, 40, 50)
+
+
+def mvec_ops(s):
+    """mutable vectors: every transition rebuilds the vector (m), mutates it and returns it"""
+    v = s.items
+    n = len(v)
+    W = "(let ((m {s}) (src (vector 10 20 30 40 50))) %s m)"
+    T = [(W % "(vector-fill! m 7)", lambda: MVec((7,) * n)), (W % "(vector-push! m 4)", lambda: MVec(v + (4,))),
+         ("(let ((m {s})) (vector-append m (vector 8)))", lambda: MVec(v + (8,))), ("(let ((m {s})) (vector-copy m))", lambda: MVec(v)),
+         ("(list->vector (reverse (vector->list {s})))", lambda: Vec(v[::-1]) if False else err_unspec())]
+    for i in (-1, 0, n - 1, n, n + 1):
+        T.append((W % ("(vector-set! m %d 9)" % i), (lambda i=i: MVec(v[:idx(i, n)] + (9,) + v[i + 1:]))))
+    for a, b in ((0, 0), (0, 1), (1, 2), (0, n), (1, n), (n, n)):
+        if 0 <= a <= b <= n:
+            T.append((W % ("(vector-fill! m 0 %d %d)" % (a, b)), (lambda a=a, b=b: MVec(v[:a] + (0,) * (b - a) + v[b:]))))
+            T.append(("(let ((m {s})) (vector-copy m %d %d))" % (a, b), (lambda a=a, b=b: MVec(v[a:b]))))
+    # vector-copy! from another vector: every (at, start, end) with the copied range inside the source and the target
+    for at in range(0, n + 1):
+        for st in range(0, 6):
+            for en in range(st, 6):
+                if at + (en - st) <= n and (en - st) <= 3 and (st, en) in ((0, 0), (0, 1), (0, 2), (1, 1), (1, 3), (2, 4), (2, 5), (3, 4), (4, 5), (0, 3), (5, 5)):
+                    T.append((W % ("(vector-copy! m %d src %d %d)" % (at, st, en)), (lambda at=at, st=st, en=en: MVec(v[:at] + SRC[st:en] + v[at + en - st:]))))
+    # overlapping copies inside one vector (as if through a temporary)
+    for at, st, en in ((1, 0, 2), (0, 1, 3), (0, 0, n), (1, 1, 2), (2, 0, 1)):
+        if 0 <= st <= en <= n and at + (en - st) <= n and at >= 0:
+            T.append(("(let ((m {s})) (vector-copy! m %d m %d %d) m)" % (at, st, en), (lambda at=at, st=st, en=en: MVec(v[:at] + v[st:en] + v[at + en - st:]))))
+    if n >= 2:
+        T.append((W % "(vector-swap! m 0 1)", lambda: MVec((v[1], v[0]) + v[2:])))
+    O = [("(vector-length {s})", lambda: n), ("(vector->list {s})", lambda: v), ("(mutable-vector->list {s})", lambda: v), ("(vector? {s})", lambda: True)]
+    for i in (-1, 0, n - 1, n, n + 1):
+        O.append(("(vector-ref {s} %d)" % i, (lambda i=i: v[idx(i, n)])))
+    for a, b in ((0, 0), (0, 1), (1, 2), (0, n), (1, n)):
+        if 0 <= a <= b <= n:
+            O.append(("(vector->list {s} %d %d)" % (a, b), (lambda a=a, b=b: v[a:b])))
+    return [t for t in T if "reverse" not in t[0]], O
 
 
 KEYS = [1, 2, (1,), "k"]
@@ -241,7 +292,9 @@ KINDS = {
     "hash": ([HM({}), HM({1: Sym("a"), 2: Sym("b")})], hash_ops),
     "hset": ([frozenset(), frozenset([1, 2])], set_ops),
     "str": (["", "abc", "λx"], str_ops),
+    "mvec": ([MVec(()), MVec((1, 2, 3))], mvec_ops),
 }
+MUTABLE_KINDS = {"mvec"}
 
 
 def expected(fn):
@@ -304,7 +357,7 @@ def run(tier, rep):
                     meta[tid] = (kind, tmpl)
                     tid += 1
                     ntr += 1
-                for tmpl, fn in T:
+                for tmpl, fn in (T if kind not in MUTABLE_KINDS else []):
                     # the same operation on an operand that is still referenced afterwards (not uniquely owned):
                     # same result, and the operand is unchanged
                     want = expected(fn)
